@@ -328,6 +328,7 @@ PROPS = {
         "theorems": ['MF.Props.C05.dml_fields_aligned_partial', 'MF.Props.C05.dml_fields_aligned_parsed_partial', 'MF.Props.C05.dml_ident_span',
             'MF.Props.C05.dml_default_span', 'MF.Props.C05.dml_row_span', 'MF.Props.C05.dml_input_span', 'MF.Props.C05.dml_item_span', 'MF.Props.C05.dml_where_span',
             'MF.Props.C05.dml_alias_span', 'MF.Props.C05.dml_statement_span', 'MF.Props.C05.dml_statement_positions', 'MF.Props.C05.dml_example_span',
+            'MF.Props.C05.dml_delete_positions', 'MF.Props.C05.dml_update_positions', 'MF.Props.C05.dml_insert_positions',
             'MF.Props.C05.type_positions',
             'MF.Props.C05.type_positions_fails_backquoted',
             'MF.Props.C05.ex_positions',
@@ -367,7 +368,8 @@ PROPS = {
             'MF.Props.C05.statement_span',
             'MF.Props.C05.query_positions_partial',
             'MF.Props.C05.eof_not_consumed',
-            'MF.Props.C05.query_positions'],
+            'MF.Props.C05.query_positions',
+            'MF.Props.C05.query_clause_positions'],
         "channels": ['TREE', 'TYPE', 'EXPRPOS', 'QUERY', 'DML'],
         "pred": True,
         "level": 'proof',
@@ -390,7 +392,7 @@ PROPS = {
             'VALUES input only, expression slots inside M1), generic in the expression parser; tied to the four entry points by the DML channel (every field and position, Pos()/End() of every node, SQL()); '
             'specification MF/Spec/DMLGrammar.lean (G_DML written from the doc comments of ast/ast.go, expression slots abstract: yields of table-grouped normal forms, the vocabulary of C07)',
             'no Lean model of the other productions of parser.go: the predicate runs the real entry points'],
-        "assumptions": ['proved for the DML fragment M2, statement level, PARTIAL (MF/Props/C05DML.lean): every position field stored in the statement-level nodes of a parsed INSERT / DELETE / UPDATE (keyword positions, Lparen / Rparen, DefaultPos, As, Where, NamePos of every Ident of the statement level) is the Pos of a token of the statement and the fields in source order are the positions of a sublist of the consumed tokens (dml_fields_aligned_partial), NameEnd is the End of the same token (dml_ident_span); Pos() / End() of the statement-level nodes, per node-building call of the positioned DML model on any suffix of lexer output: DefaultExpr, ValuesRow, ValuesInput, UpdateItem, Where, AsAlias, Insert, Delete, Update lie exactly over the run of tokens the call consumed — Pos() the pos of the first, End() the end of the last token (dml_default_span … dml_statement_span; Rparen + 1 and DefaultPos + 7 through MF.Lex.TokLen, slot ends through C05 for expressions), hence token-aligned with Pos() < End() <= len(input) (dml_statement_positions); NOT proved for DML: one theorem over all nodes of a tree at once, and C06; the DML channel compares every field and Pos()/End() of every node with Go',
+        "assumptions": ['proved for the DML fragment M2, statement level, PARTIAL (MF/Props/C05DML.lean): every position field stored in the statement-level nodes of a parsed INSERT / DELETE / UPDATE (keyword positions, Lparen / Rparen, DefaultPos, As, Where, NamePos of every Ident of the statement level) is the Pos of a token of the statement and the fields in source order are the positions of a sublist of the consumed tokens (dml_fields_aligned_partial), NameEnd is the End of the same token (dml_ident_span); Pos() / End() of the statement-level nodes, per node-building call of the positioned DML model on any suffix of lexer output: DefaultExpr, ValuesRow, ValuesInput, UpdateItem, Where, AsAlias, Insert, Delete, Update lie exactly over the run of tokens the call consumed — Pos() the pos of the first, End() the end of the last token (dml_default_span … dml_statement_span; Rparen + 1 and DefaultPos + 7 through MF.Lex.TokLen, slot ends through C05 for expressions), hence token-aligned with Pos() < End() <= len(input) (dml_statement_positions); nesting and order inside ONE DELETE / UPDATE / INSERT statement on lexer output (dml_delete_positions, dml_update_positions, dml_insert_positions: keyword, table path, alias, every UpdateItem in order, Where node, resp. the VALUES keyword and every ValuesRow in order, lie inside [Pos(), End()) in source order without overlap, each non-empty, End() <= len(input)); NOT proved for DML: the column Idents of an INSERT and the nodes inside rows / items / slots in the same single theorem (covered per call), and C06; the DML channel compares every field and Pos()/End() of every node with Go',
             'proved for the expression fragment only (expr_positions); the other productions of parser.go are not modelled',
             "proved for the ParseType entry point (model lexer + model parser, every accepted input): every node starts and ends on a token boundary ('>>'/'<>' counted as two one-byte "
             'tokens), is non-empty, in range, and contains its children in order without overlap (type_positions), except for the KNOWN DEFECT of a back-quoted simple type name (End two '
